@@ -14,6 +14,8 @@
 #include <cds/intrusive/basket_queue.h>
 #include <cds/intrusive/optimistic_queue.h>
 #include <cds/intrusive/vyukov_mpmc_cycle_queue.h>
+#include <cds/container/segmented_queue.h>
+#include <cds/intrusive/segmented_queue.h>
 #include <queue>
 #include <list>
 using namespace drv;
@@ -133,3 +135,22 @@ template <class Q> struct IvyAd { Q& q; std::vector<ivy_item*>& ar; IvyAd(Q& q_,
 template <size_t N> static void ivy_queue(const Program& P) { typedef ci::VyukovMPMCCycleQueue<ivy_item, ivy_t> Q; std::vector<ivy_item*> ar; { Q q(N); xev("cap", (long)N); IvyAd<Q> ad(q, ar); run_queue_program(P, ad, false); } for (auto p : ar) delete p; }
 DRV_VARIANT(v_ivy2, "intr_vyukov2") { ivy_queue<2>(P); }
 DRV_VARIANT(v_ivy4, "intr_vyukov4") { ivy_queue<4>(P); }
+
+// ---- C08: SegmentedQueue ------------------------------------------------------------------------------------------------------
+// deterministic permutation generators (the default uses rand()): identity and reversed order of the cells of a segment
+template <bool REV> struct det_permutation { typedef int integer_type; size_t n, i; det_permutation(size_t len) : n(len), i(0) {}
+  operator integer_type() const { return (integer_type)(REV ? n - 1 - i : i); } bool next() { return ++i < n; } void reset() { i = 0; } };
+template <bool REV> struct sq_t : public cc::segmented_queue::traits { typedef drv::qallocator<int> allocator; typedef drv::qallocator<int> node_allocator; typedef cds::sync::spin_lock<cds::backoff::yield> lock_type; typedef det_permutation<REV> permutation_generator; typedef cds::atomicity::item_counter item_counter; };
+template <class GC, class Q> static void seg_queue(const Program& P, size_t quasi) {
+  Smr<GC> smr(4, P.threads.size() + 1);
+  { Q q(quasi); xev("cap", (long)q.quasi_factor()); ValAd<Q> ad(q);
+    auto doop = [&](const Op& o) {
+      if (o.name == "enq") { inv("enq", o.arg(0)); bool r = ad.enq((int)o.arg(0)); ret(r); }
+      else if (o.name == "deq") { inv("deq"); int v = 0; bool r = ad.deq(v); ret(r, r ? v : 0); }
+      else if (o.name == "drain") { for (;;) { inv("deqq"); int v = 0; bool r = ad.deq(v); ret(r, r ? v : 0); if (!r) break; } } };
+    for (auto& o : P.init) doop(o); run_threads(P, doop, attach, detach); for (auto& o : P.fini) doop(o); } }
+typedef cc::SegmentedQueue<cds::gc::HP, Val, sq_t<false>> SQ_HP; typedef cc::SegmentedQueue<cds::gc::DHP, Val, sq_t<true>> SQ_DHP; typedef cc::SegmentedQueue<cds::gc::HP, Val, sq_t<true>> SQ_HP_R;
+DRV_VARIANT(v_sq2, "segmented_hp_q2") { seg_queue<cds::gc::HP, SQ_HP>(P, 2); }
+DRV_VARIANT(v_sq3, "segmented_hp_q3") { seg_queue<cds::gc::HP, SQ_HP_R>(P, 3); }
+DRV_VARIANT(v_sq4, "segmented_dhp_q4") { seg_queue<cds::gc::DHP, SQ_DHP>(P, 4); }
+DRV_VARIANT(v_sq8, "segmented_hp_q8") { seg_queue<cds::gc::HP, SQ_HP_R>(P, 8); }
